@@ -13,6 +13,7 @@ CONSTANTS
   NGroups <- MC_NGroupsMainStep
   MutOps <- MC_MutOpsAll
   Renames <- MC_RenamesXA
+  Reinserts <- MC_ReinsertsNone
   AsFound_AliasWhenNoCutoff = FALSE
   AsFound_PopOnStore = FALSE
   AsFound_BaseCsvDropsT = FALSE
